@@ -29,7 +29,7 @@ ASSUMPTIONS = [
 ]
 BOUNDS = {"quick": "formula = one term with fallback (4 timestamps) and term with fallback + plain term (3-4 timestamps); delivery lock-step, fallback one round early, or an initial burst; fake and real FallbackFormulaMetricFetcher; every validity pattern, delivery order pattern; primary closed after a symbolic number of samples (or never)",
           "thorough": "5 timestamps; additionally a second (plain) term"}
-OUTSIDE = "the real FallbackFormulaMetricFetcher engine start-up (C12 covers its formula); fallback stream errors; more timestamps"
+OUTSIDE = "fallback stream errors; more timestamps; generated formulas on other graphs than the one of the generated-* instances (C12 covers the formulas' topology dependence)"
 BUDGET = {"quick": 400, "thorough": 1200}
 PER = timedelta(seconds=1)
 
@@ -247,6 +247,123 @@ def make(K, second_term=False, reach=False, mode="lockstep", real_fetcher=False)
     return fn
 
 
+GEN_TERMS = {  # kind -> (generator class name, metric, battery ids for the config, [(primary meter, [fallback components])])
+    "grid": ("GridPowerFormula", "ACTIVE_POWER", None, [(2, [3]), (5, [6, 7])]),
+    "grid_reactive": ("GridReactivePowerFormula", "REACTIVE_POWER", None, [(2, [3]), (5, [6, 7])]),
+    "pv": ("PVPowerFormula", "ACTIVE_POWER", None, [(5, [6, 7])]),
+    "battery": ("BatteryPowerFormula", "ACTIVE_POWER", {4}, [(2, [3])]),
+    "producer": ("ProducerPowerFormula", "ACTIVE_POWER", None, [(5, [6, 7])]),
+}
+
+
+def make_generated(kind, K, reach=False):
+    """End to end through the real generators: GRID 1 -> {battery meter 2 -> battery inverter 3 -> battery 4, PV meter 5 -> PV inverters 6, 7};
+    the formula is generated with allow_fallback=True (real FallbackFormulaMetricFetcher, real lazily generated fallback formula);
+    the harness plays the resampling actor: it serves every ComponentMetricRequest it receives, per (component, metric) with that
+    metric's value - active and reactive power of every device are different symbolic values; a meter measures the sum of its devices
+    or delivers a missing sample (symbolic per meter and round)."""
+    import types
+    from frequenz.client.microgrid import Component, ComponentCategory as CC, ComponentMetricId, Connection, InverterType as IT
+    from frequenz.quantities import Quantity
+    from frequenz.sdk._internal._channels import ChannelRegistry
+    from frequenz.sdk.microgrid import connection_manager
+    from frequenz.sdk.microgrid.component_graph import _MicrogridComponentGraph
+    from frequenz.sdk.microgrid._data_pipeline import ComponentMetricRequest
+    import frequenz.sdk.timeseries.formula_engine._formula_generators as gens
+    from frequenz.sdk.timeseries.formula_engine._formula_generators._grid_reactive_power_formula import GridReactivePowerFormula
+
+    cls_name, metric_name, bat_ids, terms = GEN_TERMS[kind]
+    cls = GridReactivePowerFormula if cls_name == "GridReactivePowerFormula" else getattr(gens, cls_name)
+    metric = getattr(ComponentMetricId, metric_name)
+    devices = [3, 6, 7]
+    kids = {2: [3], 5: [6, 7]}
+
+    def fn(ex):
+        comps = {Component(1, CC.GRID), Component(2, CC.METER), Component(3, CC.INVERTER, IT.BATTERY), Component(4, CC.BATTERY), Component(5, CC.METER),
+                 Component(6, CC.INVERTER, IT.SOLAR), Component(7, CC.INVERTER, IT.SOLAR)}
+        conns = {Connection(1, 2), Connection(2, 3), Connection(3, 4), Connection(1, 5), Connection(5, 6), Connection(5, 7)}
+        connection_manager._CONNECTION_MANAGER = types.SimpleNamespace(component_graph=_MicrogridComponentGraph(comps, conns), api_client=None)
+        base = {(d, m): ex.real(f"{'p' if m == ComponentMetricId.ACTIVE_POWER else 'q'}{d}") for d in devices
+                for m in (ComponentMetricId.ACTIVE_POWER, ComponentMetricId.REACTIVE_POWER)}
+        mvalid = {(m_, k): ex.flag(f"m{m_}valid{k}") for m_, _ in terms for k in range(K)}
+
+        def value(cid, m, k):
+            if cid in kids:
+                if (cid, k) in mvalid and not mvalid[(cid, k)]:
+                    return None
+                return sum((value(d, m, k) for d in kids[cid]), 0.0)
+            return base[(cid, m)] + float(k) if (cid, m) in base else 0.0
+
+        async def scenario():
+            reg = ChannelRegistry(name="reg")
+            sub = Broadcast[ComponentMetricRequest](name="sub")
+            sub_rx = sub.new_receiver(limit=100)
+            eng = cls("ns", reg, sub.new_sender(), gens.FormulaGeneratorConfig(component_ids=bat_ids, allow_fallback=True)).generate()
+            rx = eng.new_receiver(max_size=100)
+            served = {}
+            for k in range(K + 1):
+                while True:  # the resampling actor picks up new subscriptions
+                    try:
+                        req = await asyncio.wait_for(sub_rx.receive(), 0.001)
+                    except asyncio.TimeoutError:
+                        break
+                    name = req.get_channel_name()
+                    if name not in served:
+                        served[name] = (reg.get_or_create(Sample[Quantity], name).new_sender(), req.component_id, req.metric_id)
+                if k < K:
+                    for snd, cid, m in list(served.values()):
+                        v = value(cid, m, k)
+                        await snd.send(Sample(TS + k * PER, None if v is None else Quantity(v)))
+                await asyncio.sleep(1.0)
+            outs = []
+            while True:
+                try:
+                    outs.append(await asyncio.wait_for(rx.receive(), 3.0))
+                except (asyncio.TimeoutError, Exception):  # noqa: BLE001
+                    break
+            try:
+                await eng._stop()
+            except Exception:  # noqa: BLE001
+                pass
+            return outs, sorted((c, str(m)) for _, c, m in served.values())
+        try:
+            outs, served = fx.run_loop(scenario())
+        except fx.Livelock:
+            ex.check(False, "formula engine spins without emitting (livelock)")
+            return
+        if reach:
+            if len(outs) == K and any(not v for v in mvalid.values()):
+                ex.check(False, "reach")
+            return
+        ex.observe("served", served)
+        ex.check(len(outs) == K, f"{len(outs)} samples emitted for {K} timestamps")
+        for o in outs:
+            k = (o.timestamp - TS) // PER
+            ex.check(0 <= k < K and TS + k * PER == o.timestamp, "output timestamp is not an input timestamp")
+            exp = 0.0
+            why = ""
+            for m_, fbs in terms:
+                fails = [j for j in range(K) if not mvalid[(m_, j)]]
+                f = fails[0] if fails else None
+                if mvalid[(m_, k)]:
+                    t = value(m_, metric, k)
+                elif f is not None and k > f:
+                    t = sum((value(d, metric, k) for d in fbs), 0.0)   # the fallback components' value OF THE SAME METRIC
+                    why = f"meter {m_} missing after start-up: the sum of its fallback components {fbs} ({metric_name}) must be used"
+                else:
+                    t = None
+                    why = f"start-up round of meter {m_}'s fallback must be None"
+                exp = None if (exp is None or t is None) else exp + t
+            if exp is None:
+                ex.check(o.value is None, f"round {k}: {why}")
+            elif o.value is None:
+                ex.check(False, f"round {k}: None emitted; {why}")
+            else:
+                ex.check(E(o.value.base_value) == E(exp) if not ex.concrete else fx.close_enough(o.value.base_value, exp),
+                         f"round {k}: output != true {metric_name} total; {why}")
+    return fn
+
+
 def instances(tier):
     I = Instance
     out = [I("reach:K3", "make", (3, False, True), "reachability twin", budget_s=100, validate_every=0),
@@ -263,7 +380,13 @@ def instances(tier):
              budget_s=300, validate_every=100),
            I("K2+2-2terms-burst", "make", (2, True, False, "burst", False), "first 2 timestamps delivered as a burst before the engine runs, then 2 live rounds",
              budget_s=300, validate_every=100)]
+    out.append(I("reach:generated-grid", "make_generated", ("grid", 3, True), "reachability twin", budget_s=60, validate_every=0))
+    for kind in GEN_TERMS:
+        out.append(I(f"generated-{kind}-K3", "make_generated", (kind, 3), f"real {GEN_TERMS[kind][0]} with allow_fallback on a real component graph, harness as resampling actor "
+                     "serving active and reactive power per component, 3 timestamps, every meter validity pattern", budget_s=120, validate_every=20))
     if tier != "quick":
+        for kind in ("grid", "grid_reactive"):
+            out.append(I(f"generated-{kind}-K4", "make_generated", (kind, 4), "4 timestamps", budget_s=300, validate_every=50))
         out.append(I("K5", "make", (5,), "5 timestamps", budget_s=900, validate_every=2000, exhaustive=False))
         out.append(I("K3+2-2terms-burst-realfetcher", "make", (3, True, False, "burst", True), "burst of 3 + 2 live rounds, real fetcher", budget_s=600, validate_every=500))
         out.append(I("K5-2terms-fb-ahead", "make", (5, True, False, "fb_ahead", False), "5 timestamps, fallback one round early", budget_s=600, validate_every=500))
